@@ -28,6 +28,16 @@ ASSUMPTIONS = [
 
 def run(ctx):
     lib = ctx.lib()
+    check_slice_routine(ctx, lib)
+    ctx.attempt("check_guards", check_guards, ctx, lib)
+    ctx.attempt("check_parse_index", check_parse_index, ctx, lib)
+    ctx.attempt("check_index", check_index, ctx, lib)
+    # start/stop/step/index are the integers the user wrote: the lexer's number conversion (shared with C03)
+    from .c03 import check_number_lexing
+    ctx.attempt("check_number_lexing", check_number_lexing, ctx, lib, "number-literal")
+
+
+def check_slice_routine(ctx, lib):
     res = slicecheck.verify(lib)
     seen = {}
     for key, ok, text, loc in res.items:
@@ -39,12 +49,6 @@ def run(ctx):
     ctx.analysed.update(res.facts)
     ctx.floor("endpoint-adjust", res.facts.get("adjust_grid_points", 0), 300, "grid points compared for adjust_slice_endpoint")
     ctx.floor("slice-routine", res.facts.get("slice_grid_points", 0), 5000, "grid points compared for the slice prefix")
-    ctx.attempt("check_guards", check_guards, ctx, lib)
-    ctx.attempt("check_parse_index", check_parse_index, ctx, lib)
-    ctx.attempt("check_index", check_index, ctx, lib)
-    # start/stop/step/index are the integers the user wrote: the lexer's number conversion (shared with C03)
-    from .c03 import check_number_lexing
-    ctx.attempt("check_number_lexing", check_number_lexing, ctx, lib, "number-literal")
 
 
 def check_guards(ctx, lib):
